@@ -35,18 +35,23 @@ def setByte (m : Mem) (ba : Nat) (v : BitVec 8) : Mem :=
 /-- `word_address * 2` in `u32`. -/
 def byteAddr (wordAddr : U32) : Nat := (wordAddr * 2).toNat
 
-/-- The hook's bound: the access touches bytes `byte_address` and `byte_address + 1`. -/
-def inRange (wordAddr : U32) : Bool := byteAddr wordAddr + 1 < 0x80000
+/-- `ASSERT(word_address < 0x40000)` of `SharedMemory::ReadWord/WriteWord`: the array holds 0x40000 words.
+(The pinned upstream code had no bound; see `inRangeUpstream`.) -/
+def inRange (wordAddr : U32) : Bool := wordAddr.toNat < 0x40000
+
+/-- What the pinned upstream code did: no check; an access was inside the array iff the `u32` byte address
+`word_address * 2` (which drops the top bit of the word address) was. -/
+def inRangeUpstream (wordAddr : U32) : Bool := byteAddr wordAddr + 1 < 0x80000
 
 /-- `SharedMemory::ReadWord` -/
 def readWord (m : Mem) (wordAddr : U32) : R (U16 × Access) :=
   if inRange wordAddr then .ok (m.read (byteAddr wordAddr / 2), ⟨byteAddr wordAddr, false, 0⟩)
-  else .error .oob
+  else .error .assert
 
 /-- `SharedMemory::WriteWord` -/
 def writeWord (m : Mem) (wordAddr : U32) (v : U16) : R (Mem × Access) :=
   if inRange wordAddr then .ok (m.write (byteAddr wordAddr / 2) v, ⟨byteAddr wordAddr, true, v⟩)
-  else .error .oob
+  else .error .assert
 
 end Mem
 
